@@ -154,3 +154,8 @@ pub fn guarded<T>(f: impl FnOnce() -> T) -> Result<T, String> {
 pub fn quiet_panics() {
     panic::set_hook(Box::new(|_| {}));
 }
+
+/// root of the verification tree (set by ./check; default /verif)
+pub fn verif_root() -> String {
+    std::env::var("VERIF_ROOT").unwrap_or_else(|_| "/verif".to_string())
+}
